@@ -46,6 +46,9 @@ def run(ctx):
     ctx.clause("C14.3 reflected IEEE polynomial constant")
     ctx.clause("C14.4 CRC routine reads every input byte exactly within bounds (skeleton execution)")
     ctx.clause("C14.5 a stored CRC is never ignored: the header parser sets has_crc whenever field 4 is present")
+    ctx.clause("C14.8 with verification off a damaged level-length prefix is still handled inside the page (rule shared with C04.12)")
+    from ..rules import pageread
+    pageread.check_level_extents(ctx)
     ctx.clause("C14.7 a page whose load failed (checksum mismatch) is not stepped over by the next call: the cursor advances only past a loaded page, with page_loaded cleared first")
     from . import C02
     C02._page_cursor(ctx, P.fn("carquet_read_next_page", "src/reader/page_reader.c"))
